@@ -260,9 +260,20 @@ func (w *World) checkC17() []Violation {
 			probes[e.Region] = append(l, &seg{})
 		}
 	}
+	// The probes of a region are one stream because a region has one
+	// establisher at a time. When hbase:meta hands out descriptions of regions
+	// that do not exist (an older incarnation, a stale parent), lookups made at
+	// different moments yield different region objects with one name, each with
+	// an establisher of its own: their first probes may coincide.
+	probeFree := 0
+	for _, f := range w.Plan.Faults {
+		if f.Act == "metabad" && (strings.HasPrefix(f.Rule.Msg, "region-older") || strings.HasPrefix(f.Rule.Msg, "rowkey-")) {
+			probeFree = 2
+		}
+	}
 	for _, r := range regs {
 		for i, sg := range probes[r] {
-			vs = append(vs, w.checkStream(stream{name: fmt.Sprintf("scenario %s, establishment probes of outage %d of region %q", scen, i+1, r), times: sg.times, free: 0})...)
+			vs = append(vs, w.checkStream(stream{name: fmt.Sprintf("scenario %s, establishment probes of outage %d of region %q", scen, i+1, r), times: sg.times, free: probeFree})...)
 			if len(vs) > 0 {
 				return vs
 			}
